@@ -81,6 +81,11 @@ def codebases(draw, wild=False, max_files=25, languages=None, clash=False):
             sc, ec = draw(st.integers(1, 40)), draw(st.integers(1, 80))
             spans.append([line, sc, line + v - 1, ec])
             line += v + draw(st.integers(0, 3))
+        if nm and draw(st.integers(0, 5)) == 0:
+            # a measurement listed twice, identical in every field (adjacent or not): the data model is a list, not a set
+            j = draw(st.integers(0, nm - 1))
+            at = draw(st.sampled_from([j + 1, nm]))
+            ls.insert(at, ls[j]); names.insert(at, names[j]); spans.insert(at, list(spans[j]))
         checksum = draw(st.text(alphabet="0123456789abcdef", min_size=32, max_size=32)) if not wild else draw(
             st.one_of(st.text(alphabet="0123456789abcdef", min_size=32, max_size=32), wild_text))
         files[path] = {"path": path, "language": lang, "checksum": checksum, "lengths": ls, "names": names, "spans": spans}
